@@ -1,0 +1,23 @@
+//go:build verif
+
+package selector
+
+// Contracts for the deductive verifier in /verif (build tag verif: not compiled
+// into normal builds). Oracle: Selectors Level 4 §17 (specificity), property C05/C03.
+
+// specificities are compared lexicographically on (ids, classes, types)
+//@ func (Specificity).Less
+//@   props C03 C05
+//@   nopanic
+//@   ensures result == (s[0] < other[0] || (s[0] == other[0] && (s[1] < other[1] || (s[1] == other[1] && s[2] < other[2]))))
+//@   loop 1 invariant -1 <= rangeindex && rangeindex < 3 && forall(k, 0, rangeindex + 1, s[k] == other[k])
+//@   loop 1 decreases 3 - rangeindex
+
+// and added component-wise
+//@ func (Specificity).Add
+//@   props C03 C05
+//@   nopanic
+//@   ensures result[0] == s[0] + other[0] && result[1] == s[1] + other[1] && result[2] == s[2] + other[2]
+//@   loop 1 invariant -1 <= rangeindex && rangeindex < 3
+//@   loop 1 invariant forall(k, 0, rangeindex + 1, s[k] == old(s[k]) + other[k]) && forall(k, rangeindex + 1, 3, s[k] == old(s[k]))
+//@   loop 1 decreases 3 - rangeindex
